@@ -2,18 +2,20 @@
    Statements only; proofs are in ProofsParse.v.
 
    PARTIAL.  Proved: the round trip for EVERY document of a fragment, at any nesting depth and
-   width - null, true, false, strings over the printable ASCII characters other than the quote
-   and the backslash, arrays, objects with such keys, printed compactly - under every
-   configuration with arrays, objects and double quotes enabled (the data read back is what
-   parse.Value returns: an empty array or object reads as nil, objects are sorted, a repeated
-   key keeps its last value); each disabled syntax is taken literally; the rejected flag
-   combination; single-quoted strings of ANY content.  NOT proved: numbers, escape sequences,
+   width - null, true, false, every integer from -2^63 to 2^64-1 in decimal (read back as the
+   same integer: unsigned when it is not negative, as strconv.ParseUint is tried first), strings
+   over the printable ASCII characters other than the quote and the backslash, arrays, objects
+   with such keys, printed compactly - under every configuration with arrays, objects and double
+   quotes enabled (the data read back is what parse.Value returns: an empty array or object
+   reads as nil, objects are sorted, a repeated key keeps its last value); the decimal text of
+   every int64 / uint64 reads back through the ParseInt / ParseUint models
+   (c17_decimal_text_reads_back); each disabled syntax is taken literally; the rejected flag
+   combination; single-quoted strings of ANY content.  NOT proved: floats, escape sequences,
    non-ASCII text and free white-space layout; they are decided by the correspondence run,
    where the model parser and the implementation are compared on every short text over the
    syntax alphabet and on random JSON documents, and the model's result is compared with the
-   data the document was printed from.  F21 (JSON escapes that strconv.Unquote does not know)
-   is the known counterexample to the full statement. *)
-From Ucfg Require Import Base ParseInt Consts Field Tree F64 ParseValue ProofsParse ProofsJson.
+   data the document was printed from. *)
+From Ucfg Require Import Base ParseInt Consts Field Tree F64 ParseValue ProofsParse ProofsDec ProofsJson.
 
 (* parse.Value(print v) = data v, for every document v of the fragment *)
 Theorem c17_json_fragment_roundtrip_partial : forall cfg v,
@@ -32,12 +34,19 @@ Theorem c17_json_fragment_value_anywhere_partial : forall cfg,
 Proof. exact parse_print. Qed.
 Print Assumptions c17_json_fragment_value_anywhere_partial.
 
+Theorem c17_decimal_text_reads_back : forall z,
+  (- 9223372036854775808 <= z <= 18446744073709551615)%Z ->
+  primitive_of (dec z) = POk (if (0 <=? z)%Z then PUint z else PInt z).
+Proof. exact primitive_of_dec. Qed.
+Print Assumptions c17_decimal_text_reads_back.
+
 Theorem c17_json_fragment_example :
-  let v := JObj [("b", JArr [JNull; JBool true; JArr []; JObj [("x y", JStr "a{b}[c],:'d")]]); ("a", JStr "")] in
+  let v := JObj [("b", JArr [JNull; JBool true; JArr []; JObj [("x y", JStr "a{b}[c],:'d")]; JInt 18446744073709551615; JInt (-9223372036854775808)]);
+                 ("a", JStr ""); ("n", JInt 0)] in
   wf v = true /\
-  print v = "{""b"":[null,true,[],{""x y"":""a{b}[c],:'d""}],""a"":""""}" /\
+  print v = "{""b"":[null,true,[],{""x y"":""a{b}[c],:'d""},18446744073709551615,-9223372036854775808],""a"":"""",""n"":0}" /\
   parse_value_with_config DefaultConfig (print v) = POk (data v) /\
-  data v = PObj [("a", PStr ""); ("b", PArr [PNil; PBool true; PNil; PObj [("x y", PStr "a{b}[c],:'d")]])].
+  data v = PObj [("a", PStr ""); ("b", PArr [PNil; PBool true; PNil; PObj [("x y", PStr "a{b}[c],:'d")]; PUint 18446744073709551615; PInt (-9223372036854775808)]); ("n", PUint 0)].
 Proof. exact json_fragment_example. Qed.
 Print Assumptions c17_json_fragment_example.
 
